@@ -34,13 +34,13 @@ func alphaSteps(thorough bool) []v1alpha1.CanaryStep {
 	weights := []*int32{nil, utilpointer.Int32(20)}
 	// 20 and "20%" collide on purpose with the weight 20 (a replicas value that merely LOOKS derived from the weight)
 	replicas := []*intstr.IntOrString{nil, isp(intstr.FromInt(3)), isp(intstr.FromString("50%")), isp(intstr.FromInt(20)), isp(intstr.FromString("20%"))}
-	pauses := []*int32{nil, utilpointer.Int32(5)}
+	// nil = wait for manual confirmation, 0 = go on at once, 5 = wait five seconds: three different meanings
+	pauses := []*int32{nil, utilpointer.Int32(5), utilpointer.Int32(0)}
 	matches := [][]v1alpha1.HttpRouteMatch{nil, {{Headers: []gatewayv1beta1.HTTPHeaderMatch{hdr("user", "demo")}}}}
 	mods := []*gatewayv1beta1.HTTPHeaderFilter{nil, {Set: []gatewayv1beta1.HTTPHeader{{Name: "x-env", Value: "canary"}}}}
 	if thorough {
 		weights = append(weights, utilpointer.Int32(0), utilpointer.Int32(100))
 		replicas = append(replicas, isp(intstr.FromInt(0)), isp(intstr.FromString("100%")))
-		pauses = append(pauses, utilpointer.Int32(0))
 		matches = append(matches, []v1alpha1.HttpRouteMatch{{Headers: []gatewayv1beta1.HTTPHeaderMatch{hdr("a", "1"), hdr("b", "2")}}, {Headers: nil}})
 	}
 	var out []v1alpha1.CanaryStep
@@ -612,7 +612,7 @@ func Run(r *lib.Report) {
 func betaSteps(th bool) []v1beta1.CanaryStep {
 	traffic := []*string{nil, utilpointer.String("20%")}
 	replicas := []*intstr.IntOrString{isp(intstr.FromInt(3)), isp(intstr.FromString("50%")), isp(intstr.FromInt(20)), isp(intstr.FromString("20%"))}
-	pauses := []*int32{nil, utilpointer.Int32(5)}
+	pauses := []*int32{nil, utilpointer.Int32(5), utilpointer.Int32(0)}
 	matches := [][]v1beta1.HttpRouteMatch{nil, {{Headers: []gatewayv1beta1.HTTPHeaderMatch{hdr("user", "demo")}}}}
 	mods := []*gatewayv1beta1.HTTPHeaderFilter{nil, {Set: []gatewayv1beta1.HTTPHeader{{Name: "x-env", Value: "canary"}}}}
 	if th {
@@ -710,7 +710,7 @@ func runBatchReleases(r *lib.Report, th bool) {
 		}
 		br.Spec.WorkloadRef = v1beta1.ObjectRef{APIVersion: "apps/v1", Kind: "Deployment", Name: "d"}
 		br.Spec.ReleasePlan = v1beta1.ReleasePlan{Batches: batchesB[i[0]], BatchPartition: parts[i[1]], RollingStyle: bstyles[i[2]],
-			FinalizingPolicy: []v1beta1.FinalizingPolicyType{"", v1beta1.WaitResumeFinalizingPolicyType, v1beta1.ImmediateFinalizingPolicyType}[i[3]],
+			FinalizingPolicy:             []v1beta1.FinalizingPolicyType{"", v1beta1.WaitResumeFinalizingPolicyType, v1beta1.ImmediateFinalizingPolicyType}[i[3]],
 			EnableExtraWorkloadForCanary: i[6] == 1}
 		switch i[4] {
 		case 1:
